@@ -6,12 +6,8 @@ followed by `S <counter> <n>` statistics lines.  Imports Model/ only (links as a
 -/
 import DelaunayModel.Model.Proto
 import DelaunayModel.Model.Pred
+import Driver.CxHandlers
 open DM
-
-structure Res where
-  status : String      -- ok | skip | DISAGREE | ORACLE
-  detail : String := ""
-  stats : List String := []   -- counters to bump
 
 def optIntTok : Option Int → String
   | some i => toString i
@@ -76,6 +72,7 @@ def runPred (c : Case) : Res :=
 def dispatch (c : Case) : Res :=
   match c.kind with
   | "pred" => runPred c
+  | "cx" => runCx c
   | k => { status := "DISAGREE", detail := s!"unknown case kind {k}" }
 
 partial def readAll (h : IO.FS.Stream) (acc : Array String) : IO (Array String) := do
